@@ -182,6 +182,11 @@ def renderAgent (s : State) : String :=
   | .restore => "200,?"
   | .none => "500,InternalServerError"
 
+/-- what the harness shows of the answer: for /restore/next only the status -/
+def renderFor (s : State) (call : String) : String :=
+  let r := renderRuntime s
+  if call == "restorenext" && r.startsWith "200" then "200" else r
+
 /-- GET /runtime/invocation/next (and, with `call = "restorenext"`, /runtime/restore/next) -/
 def rtCallBlocking (s : State) (call : String) (c : RtCall) : State :=
   match s.rt with
@@ -195,7 +200,7 @@ def rtCallBlocking (s : State) (call : String) (c : RtCall) : State :=
       if e != .ok then reply s "rt" call "403,InvalidStateTransition"
       else match park with
         | some p => addPending { s with rtParked := s.rtParked ++ [{ p with call := call }] } "rt" call
-        | none => reply s "rt" call (renderRuntime s)
+        | none => reply s "rt" call (renderFor s call)
 
 /-- a parked runtime handler wakes up (the thread flag is set) -/
 def wakeRt (s : State) : Option State :=
@@ -204,7 +209,7 @@ def wakeRt (s : State) : Option State :=
     let s := { s with rtParked := ps, rtFlag := false }
     if p.okStates.contains st then
       let s := { s with rt := some p.next }
-      some (answer s "rt" p.call (renderRuntime s))
+      some (answer s "rt" p.call (renderFor s p.call))
     else some (answer s "rt" p.call "403,InvalidStateTransition")
   | _, _, _ => none
 
@@ -281,7 +286,7 @@ def rtInitError (s : State) (etype : String) : State :=
       match rtProg st .restoreError with
       | none => reply s "rt" "initerror" "403,InvalidStateTransition"
       | some is => let (s, st', _, _) := runRtInstrs s st is
-                   reply { s with rt := some st' } "rt" "initerror" "202"
+                   reply { s with rt := some st', restoreUserType := etype } "rt" "initerror" "202"
     else
     match rtProg st .initError with
     | none => reply s "rt" "initerror" "403,InvalidStateTransition"
@@ -299,6 +304,23 @@ def rtInitError (s : State) (etype : String) : State :=
           | .noStream => reply s "rt" "initerror" "neterr"
         | none => reply s "rt" "initerror" "400,InvalidRequestID"
       else reply { s with cached := some s!"errjson:{etype}" } "rt" "initerror" "202"
+
+/-- POST /runtime/restore/error (snapshot mode only) -/
+def rtRestoreError (s : State) (etype : String) : State :=
+  match s.rt with
+  | none => reply s "rt" "restoreerror" "neterr"
+  | some st =>
+    match rtProg st .restoreError with
+    | none => reply s "rt" "restoreerror" "403,InvalidStateTransition"
+    | some is =>
+      let (s, st', _, _) := runRtInstrs s st is
+      reply { s with rt := some st', restoreUserType := etype } "rt" "restoreerror" "202"
+
+/-- GET /credentials (snapshot mode only): served only for the per-instance token -/
+def rtCreds (s : State) (tok : String) : State :=
+  match s.credKey with
+  | some k => if tok == "good" then reply s "rt" s!"creds:{tok}" s!"200,key={k}" else reply s "rt" s!"creds:{tok}" "404"
+  | none => reply s "rt" s!"creds:{tok}" "404"
 
 /-! ### Extensions API handlers -/
 
